@@ -70,10 +70,11 @@ def field_facts(ast, L, rec, this):
 def reader_contract(rec):
     def gen(ast, L, tf):
         c = '''
-__CPROVER_requires(__CPROVER_w_ok($this, sizeof(*$this)) && g_exc == 0 && RD_FRESH)
+__CPROVER_requires(__CPROVER_w_ok($this, sizeof(*$this)) && g_exc == 0 && RD_FRESH && !g_raised)
 __CPROVER_assigns(__CPROVER_object_whole($this), ''' + RD_GHOSTS + ''')
 __CPROVER_ensures(g_exc == 0 || g_exc == EXC_CdnsDecoderException || g_exc == EXC_CdnsDecoderEnd)
 __CPROVER_ensures(g_exc == 0 ==> RD_MAP_DONE)
+__CPROVER_ensures(g_raised ==> g_exc != 0)
 '''
         for fname, key, mand, cls, lv, vis, reset in field_facts(ast, L, rec, '$this'):
             if mand:
@@ -90,7 +91,7 @@ def reader_loops(rec):
         if 'indef' not in names or 'length' not in names:
             raise LowerError('%s: reader loop locals indef/length not found' % tf.cname)
         flags = [n for n, t in tf.locals if n.startswith('is_')]
-        inv = ['g_exc == 0 && RD_IN_MAP && (rd_indef1 ? indef : (!indef && length == rd_left1))', 'g_kseen <= rd_cnt1 && rd_cnt1 <= (1UL << 60)']
+        inv = ['g_exc == 0 && !g_raised && RD_IN_MAP && (rd_indef1 ? indef : (!indef && length == rd_left1))', 'g_kseen <= rd_cnt1 && rd_cnt1 <= (1UL << 60)']
         for fname, key, mand, cls, lv, vis, reset in field_facts(ast, L, rec, 'this'):
             inv.append('g_K == %d ==> (g_kseen > 0 ? %s : %s)' % (key, vis, reset))
             if mand:
@@ -129,7 +130,7 @@ def lifted_loops(ast, L, tf, lifted):
             ev = '1'
         out[lf.cname] = {1: '''
   __CPROVER_assigns(length, %(lv)s, %(G)s)
-  __CPROVER_loop_invariant(g_exc == 0 && !rd_bad && !rd_break_pending && rd_topmap && !rd_done1)
+  __CPROVER_loop_invariant(g_exc == 0 && !g_raised && !rd_bad && !rd_break_pending && rd_topmap && !rd_done1)
   __CPROVER_loop_invariant(indef ? (rd_depth == 2 && rd_indef2) : (length > 0 ? (rd_depth == 2 && !rd_indef2 && rd_left2 == length) : (rd_depth == 1 && !rd_expect_val)))
   __CPROVER_loop_invariant(%(lv)s.n == rd_idx2)
   __CPROVER_loop_invariant((rd_depth == 1 && rd_curkey == g_K) ==> (g_aseen && g_alen == rd_idx2))
@@ -201,6 +202,7 @@ __CPROVER_requires(rd_depth == 1 && rd_topmap && rd_expect_val && !rd_break_pend
 __CPROVER_requires(%(lv)s.n == 0)
 __CPROVER_assigns(%(lv)s, ''' + RD_GHOSTS + ''')
 __CPROVER_ensures(g_exc == 0 || g_exc == EXC_CdnsDecoderException || g_exc == EXC_CdnsDecoderEnd)
+__CPROVER_ensures((g_raised && !@RZ0) ==> g_exc != 0)
 __CPROVER_ensures(g_exc == 0 ==> (rd_depth == 1 && rd_topmap && !rd_expect_val && !rd_break_pending && !rd_bad && !rd_done1 && rd_cnt1 == @C0 + 1 && (rd_indef1 ? rd_left1 == @L0 : rd_left1 + 1 == @L0)))
 __CPROVER_ensures(g_exc == 0 ==> (rd_curkey == @K0 && g_kseen == @S0 && %(lv)s.n == rd_idx2))
 __CPROVER_ensures((g_exc == 0 && rd_curkey == g_K) ==> (g_kkind == K_ARRAY && g_aseen && g_alen == %(lv)s.n))
@@ -218,7 +220,7 @@ def instance_loops(ast, L, tf):
     ev = elem_val(seqt, lv)
     txt = '''
   __CPROVER_assigns(length, %(lv)s, %(G)s)
-  __CPROVER_loop_invariant(g_exc == 0 && !rd_bad && !rd_break_pending && rd_topmap && !rd_done1)
+  __CPROVER_loop_invariant(g_exc == 0 && !rd_bad && !rd_break_pending && rd_topmap && !rd_done1 && (g_raised != 0) == (@RZ0 != 0))
   __CPROVER_loop_invariant(indef ? (rd_depth == 2 && rd_indef2) : (length > 0 ? (rd_depth == 2 && !rd_indef2 && rd_left2 == length) : (rd_depth == 1 && !rd_expect_val)))
   __CPROVER_loop_invariant(%(lv)s.n == rd_idx2 && rd_idx2 <= (1UL << 60))
   __CPROVER_loop_invariant(rd_depth == 2 ? (rd_expect_val && rd_cnt1 == @C0 && rd_left1 == @L0) : (rd_cnt1 == @C0 + 1 && (rd_indef1 ? rd_left1 == @L0 : rd_left1 + 1 == @L0)))
@@ -231,7 +233,7 @@ def instance_loops(ast, L, tf):
     return {1: txt}
 
 
-GH_I = [('unsigned long', 'C0', 'rd_cnt1'), ('unsigned long', 'L0', 'rd_left1'), ('long', 'K0', 'rd_curkey'), ('unsigned long', 'S0', 'g_kseen'), ('_Bool', 'I0', 'rd_indef1')]
+GH_I = [('_Bool', 'RZ0', 'g_raised'), ('unsigned long', 'C0', 'rd_cnt1'), ('unsigned long', 'L0', 'rd_left1'), ('long', 'K0', 'rd_curkey'), ('unsigned long', 'S0', 'g_kseen'), ('_Bool', 'I0', 'rd_indef1')]
 UNITS = []
 
 
@@ -253,7 +255,7 @@ def R(rec, props=('C08', 'C09', 'C01', 'C03'), inline_reset=True, **kw):
     inl += kw.pop('inline', [])
     UNITS.append(Unit('r.' + rec, (rec + '::read', None), contract=reader_contract(rec), loops=reader_loops(rec), prelude=P,
                       extern_records=EXT, stubs=DEC_STUBS, gen_stubs=kw.pop('gen_stubs', []) + NESTED_RD, inline=inl,
-                      setup='  struct %s obj; struct CdnsDecoder dec;\n  rd_init();\n' % rec, args=['&obj', '&dec'], props=list(props), timeout=1800, weight=3 if rec in LISTY else 1,
+                      setup='  struct %s obj; struct CdnsDecoder dec;\n  rd_init(); g_raised = 0;\n' % rec, args=['&obj', '&dec'], props=list(props) + ['C05'], timeout=1800, weight=3 if rec in LISTY else 1,
                       arrays_uf=False, lifted_loops=None if rec in LISTY else lifted_loops, lifted_stub=instance_stubs if rec in LISTY else None, auto_inline=[r'[A-Za-z]+__ctor__\w+', r'[A-Za-z]+__default', r'[A-Za-z]+__reset'],
                       extra_c='struct seq_u8 g_OpCodesDefault; struct seq_u16 g_RrTypesDefault;\n' if rec in ('StorageParameters', 'BlockParameters', 'FilePreamble') else '',
                       split=False, tier='quick',
